@@ -415,6 +415,10 @@ func genOp(rnd *rand.Rand, m *model) opSpec {
 			}
 			return opSpec{Kind: "enable", Snap: n}
 		case k == 10 && m.active[n]:
+			if rnd.Intn(2) == 0 {
+				// lowering the limit makes the next refresh discard several revisions mid-change
+				return opSpec{Kind: "retain", Snap: n, Rev: 2 + rnd.Intn(4)}
+			}
 			return opSpec{Kind: "config", Snap: n, CfgVal: fmt.Sprintf("v%d", rnd.Intn(100))}
 		case !m.active[n]:
 			return opSpec{Kind: "enable", Snap: n}
@@ -486,10 +490,16 @@ func (s *verifC1011Suite) runHistory(c *C, chk *kit.Check, prop string, hi int, 
 	defer st.Unlock()
 	w := newWorld()
 	m := &model{installed: map[string]bool{}, seq: map[string][]int{}, cur: map[string]int{}, active: map[string]bool{}, maxRev: map[string]int{}}
-	nops := 4 + rnd.Intn(5)
+	nops := 5 + rnd.Intn(6)
 	var history []opSpec
 	for _, n := range []string{"some-snap", "some-other-snap"} {
 		s.fakeBackend.addSnapApp(n, "app")
+	}
+	if rnd.Intn(3) > 0 {
+		// start with a generous limit so that sequences grow beyond the default
+		tr := config.NewTransaction(st)
+		tr.Set("core", "refresh.retain", 4+rnd.Intn(3))
+		tr.Commit()
 	}
 	for oi := 0; oi < nops; oi++ {
 		s.refreshModel(m)
@@ -498,6 +508,12 @@ func (s *verifC1011Suite) runHistory(c *C, chk *kit.Check, prop string, hi int, 
 		if op.Kind == "config" {
 			tr := config.NewTransaction(st)
 			tr.Set(op.Snap, "key", op.CfgVal)
+			tr.Commit()
+			continue
+		}
+		if op.Kind == "retain" {
+			tr := config.NewTransaction(st)
+			tr.Set("core", "refresh.retain", op.Rev)
 			tr.Commit()
 			continue
 		}
